@@ -74,6 +74,7 @@ class _Recorder:
         self.tag = 0
         self.site = 0             # eligible fault-injection sites passed while active
         self.inject_at = None     # raise inject_exc instead of performing the call at this site
+        self.inject_label = None  # ... or at the first site of this kind ("before open", "inside write", ...)
         self.inject_exc = None
         self.fired = None
         self.record = True
@@ -83,7 +84,8 @@ class _Recorder:
         if self.active and site:
             idx = self.site
             self.site += 1
-            if self.inject_at == idx and self.fired is None:
+            if self.fired is None and (self.inject_at == idx or (
+                    self.inject_label is not None and why.startswith(self.inject_label))):
                 self.fired = why
                 raise self.inject_exc
         if not self.record:
@@ -240,38 +242,48 @@ def _names_fit(names, keys):
     return not rest
 
 
-def _judge(ctx, case, obs, names, alts, opkey, why):
+STALE_RPL = ":after-replace-failed-at-removal-of-old-entry"
+
+
+def _judge(ctx, case, obs, names, alts, opkey, why, stale=()):
+    """stale: keys for which an earlier replace in this process failed at the
+    removal of the old entry, leaving old entry and complete .rpl side by side
+    (one root cause; named in the signature of whatever goes wrong with them)."""
     for alt in alts:
         if obs == alt and _names_fit(names, alt):
             return
+
+    def viol(sig, key, detail):
+        ctx.violation(sig + (STALE_RPL if key in stale else ""), case, detail)
+
     before, after = alts[0], alts[-1]
     for k in sorted(set(before) | set(after) | set(obs)):
         if k == opkey:
             continue
         if k not in before:
-            ctx.violation("stray-file-visible", case, f"{why}: unexpected key {k!r} = {obs[k]!r}; directory {names}")
+            viol("stray-file-visible", k, f"{why}: unexpected key {k!r} = {obs[k]!r}; directory {names}")
         if k not in obs:
-            ctx.violation("completed-key-lost", case, f"{why}: key {k!r} (last completed value {before[k][:40]!r}) is gone; directory {names}")
+            viol("completed-key-lost", k, f"{why}: key {k!r} (last completed value {before[k][:40]!r}) is gone; directory {names}")
         if obs[k] != before[k]:
-            ctx.violation("completed-key-wrong-value", case, f"{why}: key {k!r} reads {obs[k]!r:.80}, last completed value {before[k]!r:.80}")
+            viol("completed-key-wrong-value", k, f"{why}: key {k!r} reads {obs[k]!r:.80}, last completed value {before[k]!r:.80}")
     stray = [n for n in names if n not in {_enc(k) for k in obs if k != b""}]
     if b"" in obs and len(stray) == 1 and "." not in stray[0]:
         stray = []
     if stray:
-        ctx.violation("stray-file-visible", case, f"{why}: directory entries {stray} are not keys of the database")
+        viol("stray-file-visible", None, f"{why}: directory entries {stray} are not keys of the database")
     old, new = before.get(opkey), after.get(opkey)
     got = obs.get(opkey)
     if old is None and new is None and opkey in obs:
-        ctx.violation("absent-key-resurrected", case,
-                      f"{why}: key {opkey!r} was absent/deleted by the last completed operation and now reads {got!r:.60}; directory {names}")
+        viol("absent-key-resurrected", opkey,
+             f"{why}: key {opkey!r} was absent/deleted by the last completed operation and now reads {got!r:.60}; directory {names}")
     if got is None and opkey not in obs:
-        ctx.violation("interrupted-key-lost", case,
-                      f"{why}: key {opkey!r} had {old!r:.60} and was being set to {new!r:.60}, now absent")
+        viol("interrupted-key-lost", opkey,
+             f"{why}: key {opkey!r} had {old!r:.60} and was being set to {new!r:.60}, now absent")
     if new is not None and got is not None and got != new and new.startswith(got):
-        ctx.violation("interrupted-key-partial-value", case,
-                      f"{why}: key {opkey!r} reads the first {len(got)} of {len(new)} bytes being written (old value {old!r:.40})")
-    ctx.violation("interrupted-key-wrong-value", case,
-                  f"{why}: key {opkey!r} reads {got!r:.80}; old {old!r:.60} new {new!r:.60}")
+        viol("interrupted-key-partial-value", opkey,
+             f"{why}: key {opkey!r} reads the first {len(got)} of {len(new)} bytes being written (old value {old!r:.40})")
+    viol("interrupted-key-wrong-value", opkey,
+         f"{why}: key {opkey!r} reads {got!r:.80}; old {old!r:.60} new {new!r:.60}")
 
 
 def _recover_and_check(ctx, case, work, counter, tree, alts, opkey, why, depth, extra_frac, holder):
@@ -292,7 +304,7 @@ def _recover_and_check(ctx, case, work, counter, tree, alts, opkey, why, depth, 
         rec.active = False
         holder["rec"] = outer
     obs, names = _observe(ctx, case, db, dbdir, why)
-    _judge(ctx, case, obs, names, alts, opkey, why)
+    _judge(ctx, case, obs, names, alts, opkey, why, holder.get("stale", ()))
     ctx.extra["crash_states"] = ctx.extra.get("crash_states", 0) + 1
     if depth == 0:
         leftovers = [n for n in tree if n.endswith((".new", ".rpl"))]
@@ -349,6 +361,8 @@ def run_case(ctx, case):
         model = {}
         opkeys = []
         failed_before = False
+        stale_rpl = set()
+        stale_hist = {}        # op index -> keys with a stale complete .rpl while that operation ran
 
         plan = []      # per set/del operation: what is needed to repeat it with a fault injected
 
@@ -357,6 +371,7 @@ def run_case(ctx, case):
             site0 = rec.site
             rec.alts = alts
             rec.tag = len(opkeys)
+            stale_hist[rec.tag] = set(stale_rpl)
             rec.active = True
             try:
                 return fn()
@@ -388,18 +403,22 @@ def run_case(ctx, case):
                 ctx.count("op replace" if k in model else "op set-new")
                 during([dict(model), after], lambda: db.__setitem__(k, v),
                        redo=lambda d2, k=k, v=v: d2.__setitem__(k, v))
+                if k in model:
+                    stale_rpl.discard(k)      # a completed replace writes over any stale .rpl
                 opkeys.append(k)
                 model = after
             elif kind == "setfail":
                 # a set whose write fails part-way with an ordinary error (disk
                 # full); the process carries on with the history
-                k, v, where = keys[op[1] % len(keys)], op[2], op[3] % 3
+                k, v, where = keys[op[1] % len(keys)], op[2], op[3] % 4
                 if k == b"":
                     opkeys.append(k)
                     continue
                 after = dict(model)
                 after[k] = v
-                rec.inject_at = rec.site + where      # before open / before write / inside write
+                # the write of the value fails (at open, at write, part-way), or the
+                # removal of the old entry fails; the first such call of the operation
+                rec.inject_label = ("before open", "before write", "inside write", "before remove")[where]
                 rec.inject_exc = OSError(errno.ENOSPC, "injected: no space left on device")
                 rec.fired = None
 
@@ -419,7 +438,11 @@ def run_case(ctx, case):
                 else:
                     ctx.count("op set FAILED part-way (%s), process continued" % ("replace" if k in model else "new key"))
                     failed_before = True
-                rec.inject_at, rec.inject_exc, rec.fired = None, None, None
+                if rec.fired is not None and rec.fired.startswith("before remove"):
+                    stale_rpl.add(k)
+                    stale_hist[len(opkeys) - 1].add(k)
+                    ctx.count("op replace FAILED at the removal of the old entry, process continued")
+                rec.inject_label, rec.inject_exc, rec.fired = None, None, None
             elif kind == "del":
                 k = keys[op[1] % len(keys)]
                 after = dict(model)
@@ -453,10 +476,12 @@ def run_case(ctx, case):
         holder["rec"] = None
         counter = [0]
         for alts, why, tree, j in rec.states:
+            holder["stale"] = stale_hist.get(j, ())
             label = f"crash {why} (op #{j}: {ops[j - 1] if j else 'create'!r:.60})"
             _recover_and_check(ctx, case, work, counter, tree, alts, opkeys[j], label, 0, extra_frac, holder)
         # ---- the same operations interrupted by an exception at each filesystem call ----
         for start, nsites, alts, j, redo in plan:
+            holder["stale"] = stale_hist.get(j, ())
             for site in range(nsites):
                 for exc_name, exc in _injected_faults():
                     counter[0] += 1
@@ -529,7 +554,7 @@ def _strategy():
                 if i in present:
                     present.remove(i)
             elif kind == "failreplace":
-                ops.append(("setfail", i, draw(value), draw(st.integers(0, 2))))
+                ops.append(("setfail", i, draw(value), draw(st.integers(0, 3))))
             else:
                 ops.append(("set", i, draw(value)))
                 if i not in present:
@@ -571,7 +596,7 @@ def _failing_histories():
     the subclass that overrides the _writeFile hook."""
     alphabet = [("set", 0, b"v1"), ("set", 0, b"another value"), ("del", 0), ("reopen",),
                 ("setfail", 0, b"replacement!", 0), ("setfail", 0, b"replacement!", 1),
-                ("setfail", 0, b"replacement!", 2)]
+                ("setfail", 0, b"replacement!", 2), ("setfail", 0, b"replacement!", 3)]
     for a in alphabet[:2] + alphabet[4:5]:
         for b in alphabet:
             for c in alphabet:
